@@ -3019,7 +3019,7 @@ class UTPM(Ring, RawAlgorithmsMixIn):
     @classmethod
     def diag(cls, v, k = 0, out = None):
         """Extract a diagonal or construct  diagonal UTPM instance"""
-        return cls(cls._diag(v.data))
+        return cls(cls._diag(v.data, k = k))
 
     @classmethod
     def pb_diag(cls, ybar, x, y, k = 0, out = None):
